@@ -526,6 +526,11 @@ func perrClass(e error) string {
 	if cls[:5] == "OTHER" && strings.HasPrefix(m, "parse error:") {
 		cls = "PK_Template" // nested parse error text of a template fragment
 	}
+	if strings.HasPrefix(m, "parse error: parse error:") || strings.HasPrefix(m, "parse error: syntax error:") {
+		// the error of a template fragment's own parse, reported by the enclosing parser at the string token: one
+		// class whatever the inner message says (the table above matches on substrings of the inner text)
+		cls = "PK_Template"
+	}
 	return cls + pos
 }
 
